@@ -123,11 +123,15 @@ Theorem C07_commit_decision : forall r st ch st' evs,
 Proof. exact commit_decision. Qed.
 Print Assumptions C07_commit_decision.
 
-(* the handlers never move the high TC (UpdateHighTC has no caller in the tree) *)
-Theorem C07_high_tc_only_by_update : forall r st a st' evs,
-  step r st a = (st', evs) -> (forall v, a <> AHighTC v) -> st_htc st' = st_htc st.
-Proof. exact only_update_high_tc_moves_high_tc. Qed.
-Print Assumptions C07_high_tc_only_by_update.
+(* the high TC moves only upwards and only to the view of a TC whose verdict is true (advanceView remembers the
+   sync info's verified TC, also when it is too old to move the view) or of a direct UpdateHighTC call *)
+Theorem C07_high_tc_moves_only_to_verified_tc : forall r st a st' evs,
+  step r st a = (st', evs) -> st_htc st' <> st_htc st ->
+  st_htc st < st_htc st' /\
+  ((exists v, a = AHighTC v /\ st_htc st' = v) \/
+   (exists si t, a = AAdvance si /\ si_tc si = Some t /\ t_ok t = true /\ st_htc st' = t_view t)).
+Proof. exact high_tc_moves_only_to_verified_tc. Qed.
+Print Assumptions C07_high_tc_moves_only_to_verified_tc.
 
 (* --- non-vacuity -------------------------------------------------------------------------------- *)
 
@@ -146,7 +150,7 @@ Example C07_history :
       AAdvance (mkSI None (Some (mkTC 2 true)) None);
       AAdvance (mkSI None None (Some (mkAgg 9 true (mkQC 2 1 true (Some 1)))));
       ACommit [2; 1; 0] ]
-  = (mkSt 3 2 1 0 2, [EViewChange 2 false; EViewChange 3 true; ECommit 1; ECommit 2]).
+  = (mkSt 3 2 1 2 2, [EViewChange 2 false; EViewChange 3 true; ECommit 1; ECommit 2]).
 Proof. vm_compute. reflexivity. Qed.
 
 Example C07_history_wf :
